@@ -377,6 +377,12 @@ func (w *W) opMint(op string, qi int, variant string) error {
 	case "exact":
 		outs = w.U.Outputs(act.Id, world.Split(amt)...)
 		honest = true
+	case "upperB":
+		outs = w.U.Outputs(act.Id, world.Split(amt)...)
+		for i := range outs {
+			outs[i].Msg.B_ = strings.ToUpper(outs[i].Msg.B_)
+		}
+		honest = true
 	case "less":
 		if amt < 2 {
 			return nil
@@ -587,6 +593,11 @@ func (w *W) opSwap(op, ins, variant string) error {
 		if len(outs) > 0 {
 			outs = append(outs, outs[0])
 		}
+	case "upperB": // honest outputs whose B_ is written in upper-case hex (the same points)
+		outs = mk(act.Id, net)
+		for i := range outs {
+			outs[i].Msg.B_ = strings.ToUpper(outs[i].Msg.B_)
+		}
 	case "same": // the outputs of the previous swap request again (verbatim replay)
 		outs = w.LastSwapOuts
 		if len(outs) == 0 {
@@ -657,7 +668,7 @@ func (w *W) opSwap(op, ins, variant string) error {
 		}
 		w.recordSigs(op, outs, sigs)
 	} else {
-		honest := !usedBefore && !dup && !mutated && !respelled && variant == "exact" && !resubmitted
+		honest := !usedBefore && !dup && !mutated && !respelled && (variant == "exact" || variant == "upperB") && !resubmitted
 		for _, f := range strings.Split(ins, ",") {
 			if strings.HasSuffix(f, "w") || strings.HasSuffix(f, "d") {
 				_ = f // witness / DLEQ decoration on a plain proof is ignored by the mint: still honest
